@@ -48,3 +48,110 @@ def model(rng, version, lods, materials=("mat_a.mtrl",), bones=(), shapes=(), bo
     return {"version": version, "lods": [{"meshes": ms} for ms in lods], "materials": list(materials), "bones": list(bones),
             "attributes": ["atr_x"], "shapes": list(shapes), "bone_tables": [list(b) for b in bone_tables],
             "radius_bits": rng.getrandbits(31)}
+
+
+# ------------------------------------------------------------------ canonical vertices (C07)
+def _f32bits(x):
+    return struct.unpack("<I", struct.pack("<f", x))[0]
+
+
+def _w(bits):
+    return [bits >> 16, bits & 0xFFFF]
+
+
+def _half_to_bits(h):
+    return _f32bits(struct.unpack("<e", struct.pack("<H", h))[0])
+
+
+def _rhalf(rng):
+    while True:
+        h = rng.getrandbits(16)
+        if (h >> 10) & 31 != 31:          # finite
+            return h
+
+
+def _rfloat(rng):
+    while True:
+        b = rng.getrandbits(32)
+        if (b >> 23) & 255 != 255:
+            return b
+
+
+def _unorm(b):
+    return _f32bits(b / 255.0)
+
+
+def _tang(b):
+    f = lambda x: struct.unpack("<f", struct.pack("<f", x))[0]
+    return _f32bits(f(f(f(b * 2.0) / 255.0) - 1.0))
+
+
+def canonical_vertex(rng, decl):
+    """decl: list of (stream, offset, type, usage, uidx) from make_decl.  Returns (per-stream {offset: bytes}, flat vertex)
+    where the stored bytes are the canonical encoding of the reported values."""
+    f = [0] * 22
+    bi = [0, 0, 0, 0]
+    chunks = []
+    for (stream, offset, typ, usage, _) in decl:
+        if usage == 0:       # position
+            if typ == 14:
+                hs = [_rhalf(rng) for _ in range(3)] + [0x3C00]
+                f[0:3] = [_half_to_bits(h) for h in hs[:3]]
+                b = struct.pack("<4H", *hs)
+            else:
+                fs = [_rfloat(rng) for _ in range(3)]
+                f[0:3] = fs
+                b = struct.pack("<3I", *fs) + (struct.pack("<I", 0x3F800000) if typ == 3 else b"")
+        elif usage == 3:     # normal
+            if typ == 14:
+                hs = [_rhalf(rng) for _ in range(3)] + [0]
+                f[7:10] = [_half_to_bits(h) for h in hs[:3]]
+                b = struct.pack("<4H", *hs)
+            else:
+                fs = [_rfloat(rng) for _ in range(3)]
+                f[7:10] = fs
+                b = struct.pack("<3I", *fs)
+        elif usage == 4:     # uv
+            if typ == 14:
+                hs = [_rhalf(rng) for _ in range(4)]
+                f[3:7] = [_half_to_bits(h) for h in hs]
+                b = struct.pack("<4H", *hs)
+            else:
+                fs = [_rfloat(rng) for _ in range(4)]
+                f[3:7] = fs
+                b = struct.pack("<4I", *fs)
+        elif usage == 1:     # blend weights, ByteFloat4
+            bs = [rng.randrange(256) for _ in range(4)]
+            f[18:22] = [_unorm(x) for x in bs]
+            b = bytes(bs)
+        elif usage == 2:     # blend indices, Byte4
+            bi = [rng.randrange(256) for _ in range(4)]
+            b = bytes(bi)
+        elif usage == 6:     # bitangent
+            bs = [rng.randrange(256) for _ in range(3)] + [rng.choice([0, 255])]
+            f[10:13] = [_tang(x) for x in bs[:3]]
+            f[13] = 0x3F800000 if bs[3] == 255 else 0xBF800000
+            b = bytes(bs)
+        elif usage == 7:     # colour
+            bs = [rng.randrange(256) for _ in range(4)]
+            f[14:18] = [_unorm(x) for x in bs]
+            b = bytes(bs)
+        else:
+            raise ValueError(usage)
+        chunks.append((stream, offset, b))
+    return chunks, {"f": [_w(x) for x in f], "bi": bi}
+
+
+def canonical_mesh(rng, els, vcount, indices, nsub, start_index, material=0):
+    """a mesh whose vertex buffers are canonical encodings; returns (mesh, vertices as flat records)"""
+    decl, strides = make_decl(els, 0)
+    streams = max(e[2] for e in els) + 1
+    bufs = [bytearray(vcount * strides[s]) for s in range(streams)]
+    verts = []
+    for k in range(vcount):
+        chunks, v = canonical_vertex(rng, decl)
+        for (s, off, b) in chunks:
+            bufs[s][k * strides[s] + off:k * strides[s] + off + len(b)] = b
+        verts.append(v)
+    m = mesh(rng, els, 0, vcount, indices, nsub, start_index, material=material, vdata=[bytes(b) for b in bufs])
+    return m, verts
